@@ -79,4 +79,17 @@ def Pre.Contains (p : Pre) (x : Rat) : Prop := lbOK p.lb x ∧ ubOK p.ub x ∧ (
 /-- intermediate (`ComputeBoundsAndType`) result, NaN-tolerant -/
 def Pre.ContainsW (p : Pre) (x : Rat) : Prop := lbW p.lb x ∧ ubW p.ub x ∧ (p.int = true → IsInt x)
 
+
+/-! ### converter-state predicates -/
+
+/-- every defined variable equals the value of its defining constraint -/
+def DefsHold (tr : UnFn → Rat → Rat) (trp : UnPFn → Rat → Rat → Rat) (s : State) (val : Val) : Prop :=
+  ∀ i c, s.defs.getD i none = some c → val i = c.eval tr trp val
+
+/-- `map_fixed_vars_` only holds variables fixed at their key -/
+def FixedOK (s : State) : Prop := ∀ kv ∈ s.fixed, (s.env kv.2).lb = kv.1 ∧ (s.env kv.2).ub = kv.1
+
+/-- one init-expression slot per variable -/
+def State.WF (s : State) : Prop := s.defs.size = s.vars.size
+
 end MpVerif.C06
